@@ -288,18 +288,24 @@ template <> void writeTo<AI::Vector>(std::ostream & os, const AI::Vector & x) { 
 template <> void readFrom<AI::Vector>(std::istream & is, AI::Vector & x) { AI::read(is, x); }
 
 // returns 0 good / 1 failbit / 2 exception
-template <class T> static int loadInto(T & dest, const std::string & text) {
+template <class T> static int loadInto(T & dest, const std::string & text, std::string * remaining = nullptr) {
     std::istringstream is(text);
     try { readFrom(is, dest); } catch (const std::exception &) { return 2; }
-    return is.fail() ? 1 : 0;
+    if (is.fail()) return 1;
+    if (remaining) {   // what the reader left unread (the stream may be at eof already)
+        is.clear();
+        remaining->assign(std::istreambuf_iterator<char>(is), std::istreambuf_iterator<char>());
+    }
+    return 0;
 }
 
 static long g_good = 0, g_fail = 0, g_threw = 0;
 // outcome tokens: f/F = failbit with destination unchanged/changed, t/T likewise for an exception, g <dump> = loaded
 template <class T> static void outcome(Line & l, const T & d0, const std::string & d0bits, const std::string & text) {
     T dest = cloneOf(d0);
-    int sig = loadInto(dest, text);
-    if (sig == 0) { ++g_good; l << "g" << exactOf(dest); return; }
+    std::string rem;
+    int sig = loadInto(dest, text, &rem);
+    if (sig == 0) { ++g_good; l << "g" << hexOf(rem) << exactOf(dest); return; }
     bool same = bitsOf(dest) == d0bits;
     if (sig == 1) { ++g_fail; l << (same ? "f" : "F"); } else { ++g_threw; l << (same ? "t" : "T"); }
 }
@@ -338,12 +344,14 @@ template <class T> static void runObject(const std::string & kind, Rng & rng, Sh
     std::printf("#stat kind:%s 1\n#stat text_bytes %zu\n", kind.c_str(), text.size());
     {   // round trip
         T dest = cloneOf(d0);
-        int sig = loadInto(dest, text);
+        std::string rem;
+        const std::string trailer = "77 @ tail";      // "other things can also be put on the stream"
+        int sig = loadInto(dest, text + trailer, &rem);
         bool bitsame = sig == 0 && bitsOf(dest) == bitsOf(x);
         long dd = sig == 0 ? decisionDiffs(x, dest, rng, sh) : 0;
         Line l; l << "C17" << "rt" << head << "|" << hexOf(text) << "|" << exactOf(x) << "|" << (size_t)sig << bitsame << dd << (bitsOf(dest) == d0bits);
         emitDecisions(l, x, sh);
-        if (sig == 0) l << exactOf(dest);
+        if (sig == 0) l << hexOf(rem) << exactOf(dest);
         l.emit();
     }
     {   // every truncation point
@@ -372,10 +380,31 @@ template <class T> static void runObject(const std::string & kind, Rng & rng, Sh
     }
 }
 
+// single-character corruptions: the scanner's acceptance rules (sign, dot, exponent, '@', token splitting)
+static const char kBytes[] = {'@', ' ', '-', '+', 'e', '.', 'x', '0', '9'};
+template <class T> static void runByteCorruptions(const std::string & kind, Rng & rng, Shape sh, const T & x, const T & d0, const std::string & tier) {
+    std::ostringstream os; writeTo(os, x);
+    const std::string text = os.str();
+    if (text.empty()) return;
+    const std::string d0bits = bitsOf(d0);
+    size_t n = tier == "thorough" ? 60 : 24;
+    Line l; l << "C17" << "bcorrupt" << (kind + " " + std::to_string(sh.S) + " " + std::to_string(sh.A) + " " + std::to_string(sh.O)) << "|" << hexOf(text) << "|" << n;
+    for (size_t i = 0; i < n; ++i) {
+        size_t pos = rng.below(text.size());
+        char c = kBytes[rng.below(sizeof kBytes)];
+        std::string t2 = text; t2[pos] = c;
+        l << pos << (size_t)(unsigned char)c;
+        outcome(l, d0, d0bits, t2);
+    }
+    l.emit();
+    std::printf("#stat byte_corruptions %zu\n", n);
+}
+
 template <class T> static void runKind(const std::string & kind, Rng & rng, Shape sh, int style, const std::string & tier) {
     T x = Gen<T>::make(rng, sh, style);
     T d0 = Gen<T>::make(rng, sh, (int)rng.below(2));
     runObject(kind, rng, sh, x, d0, tier);
+    runByteCorruptions(kind, rng, sh, x, d0, tier);
     // semantically invalid input: the same text offered to destinations of other shapes (one more / one fewer state,
     // action, observation): every such load must be rejected or produce a valid object of the DESTINATION's shape
     std::ostringstream os; writeTo(os, x);
